@@ -1255,7 +1255,7 @@ class ImgIo2Gen(Suite):
     OPS = ["call", "savew", "saveio", "nrrd", "v3d", "v3draw", "v3dpbd", "full", "gray", "frame", "grayget", "init", "getk", "gets"]
 
     def cases(self, rng, tier, widen):
-        n = 60 if tier == "thorough" or widen else 24
+        n = 70 if tier == "thorough" or widen else 28
         out = []
         for i in range(n):
             op = self.OPS[i % len(self.OPS)]
